@@ -362,6 +362,19 @@ def run(program, rep, tier):
               'get returns the stored handle / sub-map uncalled',
               'get() on a snapshot does not return the stored object itself',
               line=get.node.lineno)
+    # the snapshot files every name once - as a handle (listed in
+    # _handle_names, unwrapped on access) or as a nested snapshot: that a name
+    # of the source map is never BOTH a handle and a sub-map is what
+    # __setitem__ guarantees by purging every layer (C11.exclusive)
+    from rules import c11
+    rep.borrow(c11.check_setitem, program, rep,
+               keep=lambda o: o.rule == 'C11.exclusive',
+               rename=lambda r: 'C17.mirror',
+               why='a name of the source map can be a handle (in a shadowed '
+               'layer) and a sub-map at once: the snapshot lists it in '
+               '_handle_names but stores the nested snapshot under it - '
+               'snapshot[name] calls a map (TypeError), get() and the source '
+               'disagree')
     # __getattribute__ / __getitem__ : reuse C12 obligations under C17
     before = len(rep.obs)
     sub_rep_rules = ('C12.paths',)
